@@ -21,3 +21,26 @@ try:
         pass
 except ImportError:
     pass
+
+
+def structural():
+    """rendering a trace leaves the trace object as it was (one trace can be rendered to a log and to the console): no method
+    of ExceptionTrace other than the constructor and ignore_files_in stores into the receiver - the class-level snippet
+    cache aside"""
+    from pyvc import frontend, structural as st
+    P = frontend.Program()
+    bad = []
+    try:
+        ci = P.module("clikit.ui.components.exception_trace").classes["ExceptionTrace"]
+        for m, fn in sorted(ci.methods.items()):
+            if m in ("__init__", "ignore_files_in"):
+                continue
+            bad += ["%s: %s" % (m, w) for w in st.self_writes(fn) if "_FRAME_SNIPPET_CACHE" not in w]
+    except Exception as e:  # noqa
+        bad.append("class not found: %r" % (e,))
+    return [{
+        "name": "C20.ExceptionTrace.frame.render_is_read_only", "kind": "frame",
+        "text": "no method of ExceptionTrace other than __init__ and ignore_files_in stores into the trace object (the class-level "
+                "snippet cache aside)",
+        "status": "proved" if not bad else "failed", "note": "; ".join(bad[:6]),
+    }]
